@@ -2,6 +2,7 @@ package verifcheck
 
 import (
 	"fmt"
+	"runtime/debug"
 	"testing"
 
 	"github.com/sanonone/kektordb/internal/verifkit"
@@ -23,9 +24,11 @@ func RunHistory(ops []Op, mode HistoryMode, seed int64) (msg string, r *Runner) 
 	if err != nil {
 		return "harness: cannot open engine: " + err.Error(), nil
 	}
+	// a read of an unmapped arena page becomes a recoverable panic (and thus a shrinkable failure)
+	defer debug.SetPanicOnFault(debug.SetPanicOnFault(true))
 	defer func() {
 		if p := recover(); p != nil {
-			msg = fmt.Sprintf("panic while executing the history: %v", p)
+			msg = fmt.Sprintf("panic while executing the history: %v\n%s", p, trimStack(debug.Stack()))
 		}
 		r.Close()
 	}()
@@ -228,6 +231,13 @@ func runHistoryProperty(t *testing.T, prop, part, rule string, p GenParams, mode
 		col.InFlight(ops)
 		msg, r := RunHistory(ops, mode, verifkit.CaseSeed(h))
 		col.Landed()
+		if r != nil {
+			for k, n := range r.Excluded {
+				for i := 0; i < n; i++ {
+					col.Excluded(k)
+				}
+			}
+		}
 		if msg != "" {
 			if r != nil {
 				msg += "\ntrace: " + fmt.Sprint(r.Trace)
@@ -245,4 +255,12 @@ func TestVerif_C04_model(t *testing.T) {
 		func(l map[string]bool) bool {
 			return l["re-add-of-deleted-id"] || l["batch>=8"] || l["maintenance-after-delete"]
 		})
+}
+
+func trimStack(b []byte) string {
+	s := string(b)
+	if len(s) > 2500 {
+		s = s[:2500]
+	}
+	return s
 }
